@@ -68,22 +68,23 @@ type c06Item[T any] struct {
 }
 
 type c06World struct {
-	t         *testing.T
-	mu        sync.Mutex
-	cond      *sync.Cond
-	gateOpen  bool
-	force     bool // end of trace: every fake call returns at once
-	env       c06Env
-	lifetime  context.Context
-	stop      context.CancelFunc
-	srvCancel context.CancelFunc
-	srv       *c06Srv
-	cli       *c06Cli
-	returned  bool
-	retErr    error
-	seenI     int
-	seenS     int
-	openMD    string
+	iniCancelled bool // the initiator's context has been cancelled
+	t            *testing.T
+	mu           sync.Mutex
+	cond         *sync.Cond
+	gateOpen     bool
+	force        bool // end of trace: every fake call returns at once
+	env          c06Env
+	lifetime     context.Context
+	stop         context.CancelFunc
+	srvCancel    context.CancelFunc
+	srv          *c06Srv
+	cli          *c06Cli
+	returned     bool
+	retErr       error
+	seenI        int
+	seenS        int
+	openMD       string
 	// monitor state
 	srcPushed   []*repResp
 	iniPushed   []*repReq
@@ -442,6 +443,7 @@ func (w *c06World) apply(ev []string) {
 	case key == "ini cancel":
 		w.srvCancel()
 		w.ending = true
+		w.iniCancelled = true
 	case key == "srcsendfail":
 		w.cli.sendFail = true
 		w.switchSet = true
@@ -561,6 +563,13 @@ func (w *c06World) observe(evs [][]string) (string, string) {
 	if ending && w.env.grpcStreamEnv() {
 		if !ret || !closeSend || !ctxc || alive != "-" {
 			w.violation(fmt.Sprintf("a side has ended but the stream did not end together: handlerReturned=%v closeSend=%v ctxCancelled=%v alive=%s", ret, closeSend, ctxc, alive))
+		}
+	}
+	// (c') the initiator's context was cancelled: the stream towards the source lives in a context derived from it, so it is
+	// cancelled too and every blocked call on it returns — also when the source's CloseSend blocks until then (`hang`)
+	if w.iniCancelled && w.env.hang && !w.env.noE1 && !w.env.noE2 {
+		if !ret || !ctxc || alive != "-" {
+			w.violation(fmt.Sprintf("the initiator's context was cancelled but the stream did not end together (the source side blocks until ITS context is cancelled): handlerReturned=%v ctxCancelled=%v alive=%s", ret, ctxc, alive))
 		}
 	}
 	// (d) nothing is relayed once the handler has returned
